@@ -2,6 +2,8 @@ package world
 
 import (
 	"errors"
+	"sort"
+	"strings"
 	"sync"
 	"sync/atomic"
 
@@ -190,5 +192,25 @@ func (f *RegistrarPP) PostProcessComponentFactory(factory container.Factory) err
 		}
 		factory.GetDefinitionRegistry().GetMetaOrRegister(name, n)
 	}
+	return nil
+}
+
+// CatalogFactoryPP is a component-factory post-processor that looks at the registered components when it
+// is invoked (a module catalogue): what it sees does not depend on the order of anything.
+type CatalogFactoryPP struct {
+	Seen  int
+	Names string
+}
+
+func (f *CatalogFactoryPP) Naming() string { return "verif.catalog" }
+func (f *CatalogFactoryPP) LazyInit()      {}
+func (f *CatalogFactoryPP) PostProcessComponentFactory(factory container.Factory) error {
+	comps := factory.GetRegisteredComponents()
+	names := make([]string, 0, len(comps))
+	for n := range comps {
+		names = append(names, n)
+	}
+	sort.Strings(names)
+	f.Seen, f.Names = len(names), strings.Join(names, ",")
 	return nil
 }
